@@ -84,7 +84,15 @@ def check_static(res, spec, tr, fit, label, analytic):
         return
     two_point = all(len(be.vertices) == 2 for be in A["frame"].internal_big_edges)
     cond = max(A["cond"], B["cond"])
-    tol = 1e-9 * cond if (two_point or fit == "taubinSVD") else 1e-3 * (1 + cond / 100)
+    # rounding of the transformed coordinates: each is off by <= ulp/2, which turns a segment of length L by <= 2 sqrt(2) ulp / L
+    eps_dir = 0.0
+    for sp in (spec, img):
+        pos = {v[0]: (v[1], v[2]) for v in sp["vertices"]}
+        maxabs = max(max(abs(x), abs(y)) for x, y in pos.values())
+        lmin = min(math.hypot(pos[e[1]][0] - pos[e[2]][0], pos[e[1]][1] - pos[e[2]][1]) for e in sp["edges"])
+        eps_dir += 8 * 2.3e-16 * maxabs / lmin
+    amp = 1.0 if two_point else 1e3          # a circle fit amplifies point perturbations
+    tol = (1e-9 + amp * eps_dir) * cond if (two_point or fit == "taubinSVD") else 1e-3 * (1 + cond / 100)
     nd1 = d1_count(A["frame"], fit) + d1_count(B["frame"], fit)
     lam = max(abs(A["lam"] or 0.0), abs(B["lam"] or 0.0))
     worst, who = 0.0, None
@@ -115,7 +123,7 @@ def check_static(res, spec, tr, fit, label, analytic):
     res.sample({"label": label, "transform": tr, "fit": fit, "tension_change": worst, "pressure_change": pw, "coefficient_change": cw,
                 "tolerance": tol, "multiplier": lam, "d1_ends": nd1, "cond": cond})
     msgs = []
-    ctol = 1e-9 if (two_point or fit == "taubinSVD") else 2e-3
+    ctol = (1e-9 + amp * eps_dir) if (two_point or fit == "taubinSVD") else 2e-3
     if cw > ctol:
         msgs.append(f"coefficient pairs do not rotate with the tissue (off by {cw:.3g})")
     if not worst <= tol:
